@@ -12,3 +12,4 @@ import Grenad.Model.Sorter
 import Grenad.Model.Spec
 import Grenad.Model.Varint
 import Grenad.Model.Writer
+import Grenad.Model.WriterIO
